@@ -26,6 +26,9 @@ Judge(o) ==
             (IF cfg.rule # "none" /\ o.ruleprobe \notin Bound(cfg)
                 /\ ~(o.ruleprobe = "status:200" /\ (IF Bound(cfg) \subseteq MethodsD THEN DProto(cfg) ELSE EffProto(cfg)) = "rest")
              THEN {"C17.SelectorBindsNamedMethod"} ELSE {})
+            \* the second rule's binding is reachable too, whatever the first rule put next to it in the trie
+            \cup (IF cfg.rule2 \in Rule2Good /\ o.rule2probe # "Do" /\ ~(o.rule2probe = "status:200" /\ DProto(cfg) = "rest")
+                  THEN {"C17.SecondBindingReachable"} ELSE {})
             \* per-service options override the defaults
             \cup (IF EffProto(cfg) # "rest" /\ o.rpcproto # EffProto(cfg) THEN {"C17.ServiceOptionsHonoured"} ELSE {})
             \* (the probe client speaks JSON: kept when the service accepts it, else the service's codec)
